@@ -152,6 +152,8 @@ inductive Ev where
   | g (m : Nat) (v : Option Int)
   | u (ty : Nat) (v : Option Int)
   | t (ty : Nat) (v : Option Int)
+  /-- the handler of `Effect::watch` starts -/
+  | h (e : Nat)
   deriving DecidableEq, Repr, Inhabited
 
 /-- the part of the state the property is about -/
@@ -392,8 +394,23 @@ structure MemoRec where
   sources : List Nat
   deriving DecidableEq, Repr, Inhabited
 
+/-- the constructors that re-run a body under an owner of their own:
+`plain` = `Effect::new` / `new_sync` / `new_isomorphic` (the same task loop, `spawn_local` vs `spawn`);
+`watch imm hb` = `Effect::watch(dep, handler, imm)` — the dependency function is the body, `hb` is the
+handler's body, which the loop calls **outside** `owner.with_cleanup(..)`;
+`render` = `RenderEffect::new`: first run synchronous (`owner.with`), not stored in the arena — it
+lives as long as its handle;  `async` = `AsyncDerived::new` whose future is ready at once: first
+run synchronous (`owner.with_cleanup`), arena item created afterwards, sources never cleared -/
+inductive EffKind where
+  | plain
+  | watch (imm : Bool) (hb : Nat)
+  | render
+  | async
+  deriving DecidableEq, Repr, Inhabited
+
 structure EffRec where
-  key : Key
+  /-- the arena entry owning the channel's sender (`none`: `RenderEffect`, or under construction) -/
+  key : Option Key
   owner : Nat
   body : Nat
   dirty : Bool
@@ -402,6 +419,9 @@ structure EffRec where
   woken : Bool
   done : Bool
   sources : List Nat
+  kind : EffKind
+  /-- a strong reference outside the arena: the `RenderEffect` handle, or the value being constructed -/
+  held : Bool
   deriving DecidableEq, Repr, Inhabited
 
 /-- body tokens (harness grammar) -/
@@ -418,15 +438,22 @@ inductive BOp where
   | effect (b : Nat)
   | memo (b : Nat)
   | newOwner
+  | watch (b : Nat) (hb : Nat) (imm : Bool)
+  | render (b : Nat)
+  | async (b : Nat)
   deriving DecidableEq, Repr, Inhabited
 
 structure St extends Core where
   sigs : List SigRec := []
   memos : List MemoRec := []
   effs : List EffRec := []
+  /-- spawned tasks (effect ids) in spawn order -/
+  tasks : List Nat := []
   obs : Option Sub := none
   acc : Int := 0
   memoDepth : Nat := 0
+  /-- ghost: a `watch` handler created an arena value / registered a cleanup while no owner was current -/
+  watchHit : Bool := false
   /-- the harness's owner handles (`none` = dropped) -/
   hOwners : List (Option Nat) := []
   bodies : List (List BOp) := []
@@ -445,9 +472,14 @@ def memoLive (st : St) (m : Nat) : Bool :=
   | some r => st.arena.get r.key == some (Val.memo m r.owner)
   | none => false
 
+def keyLive (st : St) (e : Nat) : Option Key → Bool
+  | some k => st.arena.get k == some (Val.eff e)
+  | none => false
+
+/-- the `Arc<RwLock<EffectInner>>` (resp. `ArcAsyncDerived`) still has a strong reference -/
 def effLive (st : St) (e : Nat) : Bool :=
   match st.effs[e]? with
-  | some r => st.arena.get r.key == some (Val.eff e)
+  | some r => r.held || keyLive st e r.key
   | none => false
 
 def subLive (st : St) : Sub → Bool
@@ -492,14 +524,16 @@ def readSig (st : St) (s : Nat) : St :=
     else st
   | none => st
 
-/-- `Effect::new(body b)` under the current owner -/
-def newEffect (st : St) (b : Nat) : St :=
+/-- `Effect::new(body b)` / `Effect::watch(..)` under the current owner: `effect_base` (owner, one
+pending notification), task spawned, arena item -/
+def newEffect (st : St) (b : Nat) (kind : EffKind) : St :=
   let e := st.effs.length
   let (c1, o) := newOwner st.toCore
   let (c2, k) := newItem c1 (Val.eff e)
-  { st with toCore := c2,
-            effs := st.effs ++ [{ key := k, owner := o, body := b, dirty := true, firstRun := true,
-                                  notified := true, woken := true, done := false, sources := [] }] }
+  { st with toCore := c2, tasks := st.tasks ++ [e],
+            effs := st.effs ++ [{ key := some k, owner := o, body := b, dirty := true, firstRun := true,
+                                  notified := true, woken := true, done := false, sources := [],
+                                  kind := kind, held := false }] }
 
 /-- `Memo::new(body b)` under the current owner -/
 def newMemo (st : St) (b : Nat) : St :=
@@ -519,28 +553,53 @@ def newOwnerHandle (st : St) : St :=
   let (c1, o) := newOwner st.toCore
   { st with toCore := c1, hOwners := st.hOwners ++ [some o] }
 
-/-- body tokens other than `get` -/
-def execCreate (st : St) : BOp → St
-  | .read s => readSig st s
-  | .get _ => st
-  | .cleanup tag => st.lift (regCleanup · tag false)
-  | .nested tag => st.lift (regCleanup · tag true)
-  | .item v => st.lift (newStored · v)
-  | .sig v => newSignal st v
-  | .provide ty v => st.lift (provide · ty v)
-  | .use ty => st.lift (useCtx · ty)
-  | .take ty => st.lift (takeCtx · ty)
-  | .effect b => newEffect st b
-  | .memo b => newMemo st b
-  | .newOwner => newOwnerHandle st
-
 def bodyOf (st : St) (b : Nat) : List BOp := (st.bodies[b]?).getD []
 
 def pushCur (st : Core) (o : Nat) : Core := { st with cur := o :: st.cur }
 def popCur (st : Core) (n : Nat) : Core := { st with cur := st.cur.drop n }
 
+/-- `owner.with_cleanup(|| subscriber.with_observer(|| body))` for effect `e`; `ex` executes one
+token of the body -/
+def runScoped (ex : St → BOp → St) (st : St) (e : Nat) (owner : Nat) (body : Nat) : St :=
+  let st := st.lift (cleanupOwner · owner)
+  let saved := (st.obs, st.acc)
+  let st := st.lift fun c => logEv (pushCur c owner) (Ev.r e)
+  let st := { st with obs := some (Sub.eff e), acc := 0 }
+  let st := (bodyOf st body).foldl ex st
+  let st := st.lift (logEv · (Ev.s e st.acc))
+  let st := st.lift (popCur · 1)
+  { st with obs := saved.1, acc := saved.2 }
+
+/-- the record of a value that runs its body while it is being constructed -/
+def eagerEff (o b : Nat) (kind : EffKind) : EffRec :=
+  { key := none, owner := o, body := b, dirty := false, firstRun := false, notified := false,
+    woken := true, done := false, sources := [], kind := kind, held := true }
+
+/-- `RenderEffect::new(body b)`: owner, first run at once (the owner is fresh, so `owner.with` and
+`with_cleanup` coincide), then the task is spawned; no arena item -/
+def newRender (ex : St → BOp → St) (st : St) (b : Nat) : St :=
+  let e := st.effs.length
+  let (c1, o) := newOwner st.toCore
+  let st := { st with toCore := c1, effs := st.effs ++ [eagerEff o b EffKind.render] }
+  let st := runScoped ex st e o b
+  { st with tasks := st.tasks ++ [e] }
+
+/-- `AsyncDerived::new(|| { body; ready future })`: owner, first run at once under
+`owner.with_cleanup`, task spawned, then the arena item -/
+def newAsync (ex : St → BOp → St) (st : St) (b : Nat) : St :=
+  let e := st.effs.length
+  let (c1, o) := newOwner st.toCore
+  let st := { st with toCore := c1, effs := st.effs ++ [eagerEff o b EffKind.async] }
+  let st := runScoped ex st e o b
+  let (c2, k) := newItem st.toCore (Val.eff e)
+  match st.effs[e]? with
+  | some er =>
+    { st with toCore := c2, tasks := st.tasks ++ [e],
+              effs := st.effs.set e { er with key := some k, held := false } }
+  | none => { st with toCore := c2, tasks := st.tasks ++ [e] }
+
 /-- `MemoInner::update_if_necessary` taking the `Dirty` branch -/
-def runMemo (st : St) (m : Nat) : St :=
+def runMemo (ex : St → BOp → St) (st : St) (m : Nat) : St :=
   match st.memos[m]? with
   | none => st
   | some mr =>
@@ -551,7 +610,7 @@ def runMemo (st : St) (m : Nat) : St :=
     let saved := (st.obs, st.acc, st.memoDepth)
     let st := st.lift fun c => logEv (pushCur c mr.owner) (Ev.m m)
     let st := { st with obs := some (Sub.memo m), acc := 0, memoDepth := st.memoDepth + 1 }
-    let st := (bodyOf st mr.body).foldl execCreate st
+    let st := (bodyOf st mr.body).foldl ex st
     let v := st.acc
     let st := st.lift (popCur · 1)
     let st := { st with obs := saved.1, acc := saved.2.1, memoDepth := saved.2.2 }
@@ -560,19 +619,65 @@ def runMemo (st : St) (m : Nat) : St :=
     | none => st
 
 /-- `Memo::try_get_untracked` -/
-def getMemo (st : St) (m : Nat) : St :=
+def getMemo (ex : St → BOp → St) (st : St) (m : Nat) : St :=
   if memoLive st m then
     let st := match st.memos[m]? with
-      | some mr => if mr.dirty then runMemo st m else st
+      | some mr => if mr.dirty then runMemo ex st m else st
       | none => st
     let v := (st.memos[m]?).bind (·.value)
     let st := { st with acc := st.acc + v.getD 0 }
     st.lift (logEv · (Ev.g m v))
   else st.lift (logEv · (Ev.g m none))
 
-def execBOp (st : St) : BOp → St
-  | .get m => if st.memoDepth > 0 then st else getMemo st m
-  | op => execCreate st op
+/-- one body token; `ex` executes the tokens of bodies that run synchronously inside this one
+(memo recomputation, first run of a render effect / async derived) -/
+def execWith (ex : St → BOp → St) (st : St) : BOp → St
+  | .read s => readSig st s
+  | .get m => if st.memoDepth > 0 then st else getMemo ex st m
+  | .cleanup tag => st.lift (regCleanup · tag false)
+  | .nested tag => st.lift (regCleanup · tag true)
+  | .item v => st.lift (newStored · v)
+  | .sig v => newSignal st v
+  | .provide ty v => st.lift (provide · ty v)
+  | .use ty => st.lift (useCtx · ty)
+  | .take ty => st.lift (takeCtx · ty)
+  | .effect b => newEffect st b EffKind.plain
+  | .memo b => newMemo st b
+  | .newOwner => newOwnerHandle st
+  | .watch b hb imm => newEffect st b (EffKind.watch imm hb)
+  | .render b => newRender ex st b
+  | .async b => newAsync ex st b
+
+/-- token execution with a bound on the depth of synchronously nested bodies (a body only names
+earlier bodies, so `bodies.length + 1` is never exhausted) -/
+def exec : Nat → St → BOp → St
+  | 0, st, op => execWith (fun s _ => s) st op
+  | f + 1, st, op => execWith (exec f) st op
+
+def execBOp (st : St) (op : BOp) : St := exec (st.bodies.length + 1) st op
+
+/-- a token of a `watch` handler: reads are untracked, and what it creates lands on whatever owner
+is current where the task is polled -/
+def execHandlerTok (st : St) : BOp → St
+  | .read s => readSig st s
+  | .cleanup tag =>
+    let hit := (currentOwner st.toCore).isNone
+    { (st.lift (regCleanup · tag false)) with watchHit := st.watchHit || hit }
+  | .item v =>
+    let hit := (currentOwner st.toCore).isNone
+    { (st.lift (newStored · v)) with watchHit := st.watchHit || hit }
+  | .sig v =>
+    let hit := (currentOwner st.toCore).isNone
+    { (newSignal st v) with watchHit := st.watchHit || hit }
+  | .use ty => st.lift (useCtx · ty)
+  | _ => st
+
+def runHandler (st : St) (e : Nat) (hb : Nat) : St :=
+  let saved := (st.obs, st.acc)
+  let st := st.lift (logEv · (Ev.h e))
+  let st := { st with obs := none, acc := 0 }
+  let st := (bodyOf st hb).foldl execHandlerTok st
+  { st with obs := saved.1, acc := saved.2 }
 
 /-- the effect's task has seen its channel closed: it returns, dropping its `Owner` -/
 def endTask (st : St) (e : Nat) : St :=
@@ -582,20 +687,18 @@ def endTask (st : St) (e : Nat) : St :=
     st.lift (dropOwner · er.owner)
   | none => st
 
-/-- the body of the task loop: `owner.with_cleanup(|| with_observer(|| fun()))` -/
+/-- one iteration of the task loop's body -/
 def runEffect (st : St) (e : Nat) (er : EffRec) : St :=
-  let st := clearSources st (Sub.eff e) er.sources
+  let isAsync := er.kind == EffKind.async
+  let st := if isAsync then st else clearSources st (Sub.eff e) er.sources
   let er1 : EffRec :=
-    { er with woken := false, notified := false, dirty := false, firstRun := false, sources := [] }
+    { er with woken := false, notified := false, dirty := false, firstRun := false,
+              sources := if isAsync then er.sources else [] }
   let st := { st with effs := st.effs.set e er1 }
-  let st := st.lift (cleanupOwner · er.owner)
-  let saved := (st.obs, st.acc)
-  let st := st.lift fun c => logEv (pushCur c er.owner) (Ev.r e)
-  let st := { st with obs := some (Sub.eff e), acc := 0 }
-  let st := (bodyOf st er.body).foldl execBOp st
-  let st := st.lift (logEv · (Ev.s e st.acc))
-  let st := st.lift (popCur · 1)
-  { st with obs := saved.1, acc := saved.2 }
+  let st := runScoped execBOp st e er.owner er.body
+  match er.kind with
+  | .watch imm hb => if imm || !er.firstRun then runHandler st e hb else st
+  | _ => st
 
 /-- `Owner::paused` -/
 def ownerPaused (st : Core) (o : Nat) : Bool :=
@@ -618,7 +721,7 @@ def pollEff (st : St) (e : Nat) : St :=
       if !effLive (runEffect st e er) e then endTask (runEffect st e er) e else runEffect st e er
 
 def ready (st : St) : List Nat :=
-  (List.range st.effs.length).filter fun e =>
+  st.tasks.filter fun e =>
     match st.effs[e]? with
     | some er => !er.done && (er.woken || !effLive st e)
     | none => false
@@ -656,11 +759,22 @@ def setSig (st : St) (s : Nat) (v : Int) : St :=
     else st
   | none => st
 
+/-- `owner.with_cleanup(|| body)` called directly on an owner handle -/
+def runWc (st : St) (o : Nat) (b : Nat) : St :=
+  let st := st.lift (cleanupOwner · o)
+  let saved := (st.obs, st.acc)
+  let st := st.lift (pushCur · o)
+  let st := { st with obs := none, acc := 0 }
+  let st := (bodyOf st b).foldl execBOp st
+  let st := st.lift (popCur · 1)
+  { st with obs := saved.1, acc := saved.2 }
+
 /-! ## op lines -/
 
 inductive Act where
   | x (b : BOp)
   | cleanup (o : Nat)
+  | wc (o : Nat) (b : Nat)
   deriving Repr, Inhabited
 
 inductive HKind where
@@ -687,7 +801,16 @@ def handleKey (st : St) : HKind → Nat → Option Key
   | .i, k => st.items[k]?
   | .s, k => (st.sigs[k]?).map (·.key)
   | .m, k => (st.memos[k]?).map (·.key)
-  | .e, k => (st.effs[k]?).map (·.key)
+  | .e, _ => none
+
+/-- `dispose` on an effect handle: `ArenaItem::dispose`, or dropping the `RenderEffect` -/
+def disposeEff (st : St) (i : Nat) : Option St :=
+  match st.effs[i]? with
+  | some er =>
+    match er.key with
+    | some k => some (st.lift (disposeKey · k))
+    | none => some { st with effs := st.effs.set i { er with held := false } }
+  | none => none
 
 def dropHandle (st : St) (h : Nat) : St :=
   match heldOwner st h with
@@ -710,6 +833,10 @@ def stepOp (st : St) : Op → Option St
           match heldOwner st h with
           | some o => some (st1.lift (cleanupOwner · o))
           | none => none
+        | .wc h b =>
+          match heldOwner st h with
+          | some o => some (runWc st1 o b)
+          | none => none
       r.map fun st2 => st2.lift (popCur · os.length)
   | .child h =>
     match heldOwner st h with
@@ -721,6 +848,7 @@ def stepOp (st : St) : Op → Option St
     match heldOwner st h with
     | some _ => some (dropHandle st h)
     | none => none
+  | .dispose .e i => disposeEff st i
   | .dispose k i =>
     match handleKey st k i with
     | some key => some (st.lift (disposeKey · key))
